@@ -124,7 +124,31 @@ def t_scale(rng, sc):
             else:
                 d = calcore.rand_a(rng, sc.typ, st.bcols)
                 st.A[f] = calcore.mmul(st.A[f], d)
-    return [s1, s2], "value-pair"
+    # joint scaling of every simultaneous (a, b) reading - of the standards AND of the device reading handed to
+    # vnacal_apply - by factors spanning 1e-9 .. 1e9 (powers of two and of ten, both directions).  b is computed from
+    # the measurement and a (linear in a), so scaling a scales b by the same factor.  s3: one common factor for the
+    # whole run; s4: an independent factor per reading (standard, frequency, device reading).
+    s1.apply_form = s2.apply_form = "ab"
+
+    def scaled(base, pick):
+        s = copy.deepcopy(base)
+        for st in s.stds:
+            for f in range(sc.F):
+                k = pick()
+                st.A[f] = [[x * k for x in row] for row in st.A[f]]
+        for f in range(sc.F):
+            k = pick()
+            s.apply_A[f] = [[x * k for x in row] for row in s.apply_A[f]]
+        return s
+    k0 = rng.choice(AB_SCALES)
+    s3 = scaled(s1, lambda: k0)
+    s4 = scaled(s1, lambda: rng.choice(AB_SCALES))
+    return [s1, s2, s3, s4], "value-pair"
+
+
+# factors for the joint scaling of a and b readings: 2^-30 (9.3e-10) .. 2^30 and 1e-9 .. 1e9
+AB_SCALES = [2.0 ** e for e in (-30, -27, -23, -20, -13, -10, 10, 13, 20, 23, 27, 30)] + \
+            [10.0 ** e for e in (-9, -8, -7, -6, -5, -4, -3, 3, 4, 5, 6, 7, 8, 9)]
 
 
 def t_e12(rng, sc):
@@ -583,6 +607,194 @@ def cell_map_tie(ctx, exe):
     return bad
 
 
+# ----------------------------------------------------------------------------- renumbering: model records vs library
+RENUM_TYPES = ["T8", "TE10", "U8", "UE10", "T16", "U16"]
+
+
+def _dump_records(body):
+    """the measurement records of a structure dump of harness/calcore_e2e.c: index -> dict"""
+    ms = {}
+    cur = None
+    for ln in body:
+        q = ln.split()
+        if not q:
+            continue
+        if q[0] == "M":
+            cur = int(q[1])
+            cells = [int(x) for x in ln.split("cells=", 1)[1].split(",") if x]
+            ms[cur] = {"given": cells, "s": [], "conn": None, "eqs": []}
+        elif q[0] == "S" and cur is not None:
+            ms[cur]["s"] = [x.split(":", 1)[1] for x in q[1:]]
+        elif q[0] == "C" and cur is not None:
+            ms[cur]["conn"] = None if q[1] == "-" else q[1]
+        elif q[0] == "E":
+            ms[int(q[2])]["eqs"].append({"row": int(q[3]), "col": int(q[4]), "terms": []})
+            last = ms[int(q[2])]["eqs"][-1]
+        elif q[0] == "T":
+            last["terms"].append([int(x) for x in q[1:6]])
+    return [ms[k] for k in sorted(ms)]
+
+
+def _coq_meas(m, n):
+    def z(v):
+        return "(%d)%%Z" % v
+    def b(v):
+        return "true" if v else "false"
+    given = "[" + "; ".join(b(i in set(m["given"])) for i in range(n * n)) + "]"
+    s = "[" + "; ".join("SNull" if t == "-" else "SZero" if t == "Z" else "SParam %s" % z(int(t)) for t in m["s"]) + "]"
+    conn = "None" if m["conn"] is None else "(Some [" + "; ".join(b(ch == "1") for ch in m["conn"]) + "])"
+    eqs = "[" + ";\n    ".join(
+        "mkEq %d %d [%s]" % (e["row"], e["col"], "; ".join(
+            "mkTerm %s %s %s %s %s" % (z(t[0]), b(t[1]), z(t[2]), z(t[3]), z(t[4])) for t in e["terms"]))
+        for e in m["eqs"]) + "]"
+    return "(mkMeasurement %s\n   %s\n   %s\n   %s [])" % (given, s, conn, eqs)
+
+
+RENUM_PRELUDE = """Require Import List ZArith Bool Arith.
+Require Import LV.Gen.LayoutGen LV.Cal.TermsModel LV.Cal.AddModel LV.Cal.C17Proofs LV.Cal.RenumberModel.
+Import ListNotations.
+Local Open Scope nat_scope.
+Definition bres_is (b : bres) (l : list term) : bool :=
+  match b with BOk l' => list_eqb term_eqb l' l | _ => false end.
+(* RenumberModel.meas_wf, decided *)
+Definition wf_b (ty : caltype) (n : nat) (m : measurement) : bool :=
+  forallb (fun e => andb (andb (Nat.ltb (e_row e) n) (Nat.ltb (e_col e) n))
+                         (bres_is (build_terms ty (ctx_of_meas n m) (e_row e) (e_col e)) (e_terms e))) (ms_eqs m).
+Definition eqs_sub (a b : list equation) : bool := forallb (fun e => existsb (eq_eqb e) b) a.
+(* same record up to the order of the equations *)
+Definition same_b (a b : measurement) : bool :=
+  andb (andb (list_eqb Bool.eqb (ms_m_given a) (ms_m_given b)) (list_eqb scell_eqb (ms_s a) (ms_s b)))
+       (andb (conn_eqb (ms_conn a) (ms_conn b))
+             (andb (Nat.eqb (length (ms_eqs a)) (length (ms_eqs b)))
+                   (andb (eqs_sub (ms_eqs a) (ms_eqs b)) (eqs_sub (ms_eqs b) (ms_eqs a))))).
+Definition chk (ty : caltype) (n : nat) (pl ql : list nat) (m m' : measurement) : bool * bool :=
+  (wf_b ty n m, same_b (renum_meas ty n (fun i => nth i pl 0) (fun i => nth i ql 0) m) m').
+"""
+
+
+def renumber_structure_tie(ctx, exe):
+    """RenumberModel.renum_meas (the hypothesis side of c17_renumbering_permutes_equations_partial) against the
+    library: random sequences of add calls on an n x n calibration (T8, TE10, U8, UE10, T16, U16; every entry point,
+    permuted port maps, abbreviated matrices, sparse S patterns) are run through the C library twice, as generated
+    and with every VNA port number p replaced by sigma(p).  The records the library builds for the original calls
+    (given cells, S cells, connectivity, equations with their terms) are handed to Coq, which decides (vm_compute)
+    meas_wf of each (the theorem's hypothesis: the terms are what TermsModel.build_terms emits) and that
+    renum_meas sigma of it IS the record the library built for the renumbered call (same arrays, same set of
+    equations with identical term lists).  Exact."""
+    rng = random.Random("C17-renumber-%d" % ctx.seed)
+    ncase = 18 if ctx.tier == "quick" else 72
+    cases = []
+    for i in range(ncase):
+        typ = RENUM_TYPES[i % len(RENUM_TYPES)]
+        n = rng.randint(2, 3) if calcore.is_16(typ) else rng.randint(2, 4)
+        while True:
+            sigma = list(range(n))
+            rng.shuffle(sigma)
+            if sigma != list(range(n)):
+                break
+        adds, handle, npar = calcore.gen_struct_case(rng, typ, n, n, rng.randint(2, 4), npar=rng.randint(4, 12),
+                                                     allow_bad=False, forest_prob=0.5)
+        adds = [a for a in adds if a["mapflag"] or (a["sr"] == n and a["sc"] == n)]
+        radds = []
+        for a in adds:
+            b = copy.deepcopy(a)
+            ports = a["ports"] if a["mapflag"] else list(range(1, n + 1))
+            b["ports"] = [sigma[q - 1] + 1 for q in ports]
+            b["mapflag"] = 1
+            radds.append(b)
+        cases.append({"typ": typ, "n": n, "sigma": sigma, "adds": adds, "radds": radds, "npar": npar})
+
+    def script(cs, adds):
+        s = ["scalar %d %s %s" % (k, calcore.hx(0.3 + 0.01 * k), calcore.hx(0.125)) for k in range(cs["npar"])]
+        s.append("new 0 %d %d %d 1 %s" % (calcore.TYPE_CODE[cs["typ"]], cs["n"], cs["n"], calcore.hx(1e9)))
+        s += [calcore.struct_c_line(cs["typ"], a) for a in adds]
+        s += ["dump 0", "free 0"]
+        return "\n".join(s) + "\n"
+
+    def run_c(cs):
+        out = []
+        for adds in (cs["adds"], cs["radds"]):
+            text = script(cs, adds)
+            out.append((text,) + calcore.run_script(ctx, exe, text))
+        return out
+    with concurrent.futures.ThreadPoolExecutor(max_workers=min(8, vplib.NPROC)) as ex:
+        results = list(ex.map(run_c, cases))
+    bad = []
+    items = []
+    for cs, res in zip(cases, results):
+        ctx.count()
+        (t0, rc0, out0, err0), (t1, rc1, out1, err1) = res
+        cs["scripts"] = [t0, t1]
+        if rc0 != 0:
+            continue                       # the original sequence stops the library: the entry-point tie's business
+        if rc1 != 0:
+            sig = vplib.asan_signature(err1) or {"kind": "fault", "error": "exit %d" % rc1, "function": None}
+            bad.append((sig, "library stopped on the renumbered add sequence only (%s %dx%d, sigma %s)" % (
+                cs["typ"], cs["n"], cs["n"], cs["sigma"]), cs))
+            continue
+        r0, r1 = calcore.parse_output(out0), calcore.parse_output(out1)
+        a0 = [x.get("rc") for k, x in r0 if k == "add"]
+        a1 = [x.get("rc") for k, x in r1 if k == "add"]
+        if a0 != a1:
+            bad.append(({"kind": "struct", "class": "renumbering", "type": cs["typ"]},
+                        "%s %dx%d sigma %s: calls accepted %s, renumbered calls accepted %s" % (
+                            cs["typ"], cs["n"], cs["n"], cs["sigma"], a0, a1), cs))
+            continue
+        d0 = [x for k, x in r0 if k == "dump"]
+        d1 = [x for k, x in r1 if k == "dump"]
+        if not d0 or not d1:
+            continue
+        m0, m1 = _dump_records(d0[0]["body"]), _dump_records(d1[0]["body"])
+        if len(m0) != len(m1):
+            bad.append(({"kind": "struct", "class": "renumbering", "type": cs["typ"]},
+                        "%s %dx%d: %d records, renumbered %d" % (cs["typ"], cs["n"], cs["n"], len(m0), len(m1)), cs))
+            continue
+        inv = [0] * cs["n"]
+        for i_, v in enumerate(cs["sigma"]):
+            inv[v] = i_
+        for j, (x, y) in enumerate(zip(m0, m1)):
+            items.append((cs, j, "chk %s %d [%s] [%s]\n  %s\n  %s" % (
+                cs["typ"], cs["n"], "; ".join(map(str, cs["sigma"])), "; ".join(map(str, inv)),
+                _coq_meas(x, cs["n"]), _coq_meas(y, cs["n"]))))
+    verdicts = []
+    if items:
+        src = RENUM_PRELUDE + "Set Printing Depth 1000000.\nEval vm_compute in [\n" + ";\n".join(it[2] for it in items) + "].\n"
+        rc, out, err = ctx.coq_eval("c17_renum_cases", src, timeout=600)
+        if rc != 0:
+            raise vplib.BuildError("coq_eval of the renumbering cases failed: " + (err or out)[-600:])
+        import re
+        verdicts = re.findall(r"\(\s*(true|false)\s*,\s*(true|false)\s*\)", out)
+        if len(verdicts) != len(items):
+            raise vplib.BuildError("coq_eval of the renumbering cases: %d verdicts for %d records" % (len(verdicts), len(items)))
+    ncmp = neq = 0
+    seen_bad = set()
+    for (cs, j, _), (wf, same) in zip(items, verdicts):
+        ncmp += 1
+        if wf == "true" and same == "true":
+            ctx.nontrivial.add(("renum", len(ctx.nontrivial)))
+            ctx.traces_validated += 1
+            neq += 1
+            continue
+        if id(cs) in seen_bad:
+            continue
+        seen_bad.add(id(cs))
+        what = ("the terms of the library's record are not those TermsModel.build_terms emits (meas_wf)" if wf != "true"
+                else "the library's record for the renumbered call is not RenumberModel.renum_meas of the original record")
+        bad.append(({"kind": "struct", "class": "renumbering", "type": cs["typ"]},
+                    "%s %dx%d sigma %s, standard #%d (%s ports %s): %s" % (
+                        cs["typ"], cs["n"], cs["n"], cs["sigma"], j, cs["adds"][j]["fn"] if j < len(cs["adds"]) else "?",
+                        cs["adds"][j]["ports"] if j < len(cs["adds"]) else "?", what), cs))
+    ctx.extra["renumbering_tie_cases"] = len(cases)
+    ctx.extra["renumbering_tie_records_compared"] = ncmp
+    ctx.obligation("tie:RenumberModel.renum_meas of the library's records = the library's records for the renumbered "
+                   "add calls, and meas_wf of the library's records (Coq vm_compute, exact)",
+                   not bad and ncmp >= len(cases), bad[0][1] if bad else "%d records compared" % ncmp)
+    for sig, what, cs in bad[:3]:
+        ctx.violation(sig, what, {"type": cs["typ"], "n": cs["n"], "sigma": cs["sigma"], "adds": cs["adds"],
+                                  "renumbered_adds": cs["radds"], "scripts": [t[:30000] for t in cs.get("scripts", [])]})
+    return bad
+
+
 def script_of(sc, dump=True):
     return calcore.scenario_script(sc, dump=dump).text()
 
@@ -602,7 +814,8 @@ def run(ctx):
                 "through the public API, or one random call sequence / one standard in all its shapes of the white-box ties; "
                 "distinct non-trivial = pairs in which both sides solved and were compared, sequences whose dumps were compared")
     files = ["Gen/LayoutGen.v", "Cal/TermsModel.v", "Cal/AddModel.v", "Cal/TermsProofs.v", "Cal/C17Proofs.v",
-             "Cal/ConnProofs.v", "Cal/OrderProofs.v", "Cal/CalAlgebra.v", "Properties_C17.v"]
+             "Cal/ConnProofs.v", "Cal/OrderProofs.v", "Cal/CalAlgebra.v", "Cal/RenumberModel.v", "Cal/RenumberProofs.v",
+             "Properties_C17.v"]
     # Gen/LayoutGen.v is regenerated by the translator of C01
     import layout as T5
     try:
@@ -628,6 +841,7 @@ def run(ctx):
     exe = ctx.build_harness("calcore_e2e", san=True, wrap=True, defines=["CALCORE_WRAP"])
     entry_point_tie(ctx, exe)
     cell_map_tie(ctx, exe)
+    renumber_structure_tie(ctx, exe)
     npairs = 28 if ctx.tier == "quick" else 120
     jobs = []
     for tname, tf in TRANSFORMS:
@@ -900,7 +1114,28 @@ def run(ctx):
             continue
         seen.add(k)
         ctx.violation(sig, what, {"scenario": calcore.describe(sc), "script_of_first_side": script_of(sc)[:150000]})
+    pkgG_frequencies_with_m_error(ctx)      # package G: V matrices re-initialised at every frequency (m_error on)
     if not coq_ok and not ctx.violations:
         log = getattr(ctx, "_last_coq_log", "")
         ctx.unproved("C17:coq", "Coq development no longer builds: " + log[-400:].replace("\n", " "),
                      "pairs of scenarios for every transformation through the C API")
+
+
+
+def pkgG_frequencies_with_m_error(ctx):
+    """'Solving frequencies together versus one at a time' with the measurement-error model on: the only
+    state _vnacal_new_solve_simple carries from one frequency to the next is the V matrices of the solve
+    state; the white-box build (harness/selfcal_wb_vmat.c) dumps them at the start of every frequency and
+    they must be what VMatrixModel.init_v_matrices holds (identity), which is what a solve of that
+    frequency alone starts from.  Over-determined, three frequencies, standards that couple the ports,
+    noisy data."""
+    import random as _random
+    import c18_gen as VG
+    rng = _random.Random(ctx.rng.getrandbits(48))
+    n, fails = VG.v_reinit_failures(ctx, rng, 4 if ctx.tier == "quick" else 12)
+    ctx.traces_validated += n
+    ctx.obligation("tie:V matrices at the start of every frequency (m_error on) vs VMatrixModel.init_v_matrices",
+                   not fails and n > 0, fails[0][1] if fails else "%d frequency starts compared" % n)
+    for sc, detail in fails[:1]:
+        ctx.violation({"kind": "frequencies_together_vs_alone", "model": "m_error", "type": sc.typ}, detail,
+                      {"how": "harness/selfcal_wb_vmat.c < scenario", "scenario": sc.text(), "meta": sc.meta})
